@@ -316,7 +316,9 @@ func checkBackendReply(c replyCase) *verdict {
 }
 
 func genRedirText(t *rapid.T) string {
-	word := rapid.SampledFrom([]string{"MOVED", "ASK", "moved", "Ask", "CLUSTERDOWN", "clusterdown", "MOVEDX", "ASKING", "ERR"}).Draw(t, "word")
+	// "ſ" (U+017F) and the Kelvin sign (U+212A) are equal to s / k under Unicode case folding but not under ToLower
+	word := rapid.SampledFrom([]string{"MOVED", "ASK", "moved", "Ask", "CLUSTERDOWN", "clusterdown", "MOVEDX", "ASKING", "ERR",
+		"Aſk", "aſ\u212a", "AS\u212a", "CLUſTERDOWN", "mOvEd"}).Draw(t, "word")
 	switch rapid.IntRange(0, 6).Draw(t, "shape") {
 	case 0:
 		return word
